@@ -120,7 +120,8 @@ GEN = (' Generic defect patterns are decided on the files the property is anchor
        'mutable container is mutated through an instance (R31), no closure kept beyond a loop iteration reads a variable the loop rebinds '
        '(R32), no mapping keyed by an itertools.groupby key is built over a sequence that is not sorted by that key (R33), and no step class or '
        'step factory in those files leaves state to the next run of the same step object (R34: nothing accumulated into constructor state, no '
-       'factory-scope name rebound by a run and read before it is set, no object the factory was given changed in place).')
+       'factory-scope name rebound by a run and read before it is set, no object the factory was given changed in place), and no function '
+       'changes the state of an object created in its own default argument (R35).')
 MORE = {
     'C01': ' R34c (helpers only): a helper processor built by Flow._chain holds nothing a run uses up unless _chain builds the chain on every call.'
            ' R1k replays every path of the dispatch loop on a finite set of abstract link kinds (nested Flow, processor, function, bound method, '
@@ -172,10 +173,10 @@ MORE2 = {
     'C09': " Guard roles: a test of the counter attribute enclosing its write has positive polarity; inside a scan over the descriptors a "
            "per-resource counter is written under the name-equality test; set_attr stores and get_attr returns the stored value; every chunk "
            "hash_handler reads reaches the digest (text as UTF-8 bytes). R19d: an existing data file is left in place only under a content-addressed path.",
-    'C20': " describe iff the table exists; a path that drops and a path that keeps the existing table both exist; the fixers collected for "
+    'C20': " The engine schema differs from the emitted one only in the type of array / object fields. describe iff the table exists; a path that drops and a path that keeps the existing table both exist; the fixers collected for "
            "array / object fields are applied in list order to the value under the field name; strize is the documented (kind -> result) "
            "table, jsonize is json.dumps, sqlite declares array / object columns as string.",
-    'C15': " NEW-FIELDS: the package phase of add_computed_field declares one field per spec ({name, type=get_type(...)} or a copy of the "
+    'C15': " find_replace leaves neither the loop over the listed fields nor the loop over their patterns early. NEW-FIELDS: the package phase of add_computed_field declares one field per spec ({name, type=get_type(...)} or a copy of the "
            "target descriptor).",
     'C02': " UPK: update_package removes `resources` from the user's metadata before updating the descriptor. R18t: the field join declares "
            "for an aggregate takes its type from the aggregator or from the source field and carries the source field's properties exactly "
@@ -184,16 +185,17 @@ MORE2 = {
            "platform-probed format. The checkpoint directory is os.path.join(checkpoint_path, checkpoint_name) with the name as given.",
     'C11': " median and update_counter are decided path by path (None / even / odd; nothing new / text as one item / running value made a "
            "Counter); R18t as in C02.",
-    'C01': " R1m: the code that decides what a link is consults no module-level container the library also fills and no memoised helper.",
-    'C06': " R13q: every queue created in the modules of row-wise steps has a capacity that is provably >= 1.",
+    'C01': " R1a: the dispatch partitions user callables at exactly one parameter. R1m: the code that decides what a link is consults no module-level container the library also fills and no memoised helper.",
+    'C06': " LAC: the three constants that bound look-ahead (in-memory sample, reader sample default, SQL write batch default) are integer "
+           "literals <= 10**4. R13q: every queue created in the modules of row-wise steps has a capacity that is provably >= 1.",
     'C13': " END: after the zip() loop that pairs descriptors and loaded streams the stream iterator is iterated to its end (a (descriptor, "
            "iterators) source is exhausted within the run). VAL (shared with C14): CAST_WITH_SCHEMA casts every checked field of every row.",
     'C04': " END as in C13: a source flow handed to load() is exhausted, so a step of it failing at end of stream fails this run.",
     'C03': " The format temporal values are written with is the platform-probed constant (one of its values pads the year). R19d: an existing "
            "data file is left in place only under a content-addressed path.",
     'C08': " The checkpoint directory is os.path.join(checkpoint_path, checkpoint_name) with the name as given.",
-    'C05': " The checkpoint directory is os.path.join(checkpoint_path, checkpoint_name) with the name as given.",
-    'C18': " (g0) no Barrier / Event / Condition wait of the protocol gives up after a timeout (decided before the channel model is built). (f) also: the test of the collecting loop is constant-true (or `(row := q.get()) is not None`), so the loop ends at the marker only.",
+    'C05': " FIN: finalizer passes the stream on completely before it merges the stats and calls back, exactly once. The checkpoint directory is os.path.join(checkpoint_path, checkpoint_name) with the name as given.",
+    'C18': " (j) the worker processes are not daemonic. (g0) no Barrier / Event / Condition wait of the protocol gives up after a timeout (decided before the channel model is built). (f) also: the test of the collecting loop is constant-true (or `(row := q.get()) is not None`), so the loop ends at the marker only.",
 }
 for _pid, _c in CHECKS.items():
     _c['text'] = _c['text'] + MORE.get(_pid, '') + MORE2.get(_pid, '') + GEN
